@@ -400,34 +400,34 @@ func readValue091(r io.Reader) (data interface{}, err error) {
 		return rData, nil
 	case 's':
 		var rData string
-		if rData, err = ReadShortstr(r); err == nil {
+		if rData, err = ReadShortstr(r); err != nil {
 			return nil, err
 		}
 
 		return rData, nil
 	case 'S':
 		var rData []byte
-		if rData, err = ReadLongstr(r); err == nil {
+		if rData, err = ReadLongstr(r); err != nil {
 			return nil, err
 		}
 
 		return rData, nil
 	case 'T':
 		var rData time.Time
-		if rData, err = ReadTimestamp(r); err == nil {
+		if rData, err = ReadTimestamp(r); err != nil {
 			return nil, err
 		}
 
 		return rData, nil
 	case 'A':
 		var rData []interface{}
-		if rData, err = readArray(r, Proto091); err == nil {
+		if rData, err = readArray(r, Proto091); err != nil {
 			return nil, err
 		}
 		return rData, nil
 	case 'F':
 		var rData *Table
-		if rData, err = ReadTable(r, Proto091); err == nil {
+		if rData, err = ReadTable(r, Proto091); err != nil {
 			return nil, err
 		}
 		return rData, nil
